@@ -145,6 +145,48 @@ theorem payload_once_delivered (e : Env) (r : Req) (hr : e.req = some r) (hroute
 
 example : Action.closeWrite .right ∈ handleConn sampleEnv ∧ targetReceived (handleConn sampleEnv) = [1, 2, 3] := by decide
 
+/-! ### the wait-path branches that real TCP rarely or never produces (exercised by the scripted-connection engine) -/
+
+/-- A failing Proceed, a failing SetReadDeadline, a wait read that fails with anything but a timeout, or a failing
+deadline reset on the wait path: the connection is dropped — nothing is dialed, nothing is aborted (success was already
+signalled), nothing is recorded, and the last thing that happens is the close of the client connection. -/
+theorem wait_path_failure_drops (e : Env) (r : Req) (hr : e.req = some r) (hroute : e.routeErr = none)
+    (hw : waits e r = true)
+    (hf : e.proceedOk = false ∨ e.setDeadlineOk = false ∨ e.waitKind = .error ∨ e.clearDeadlineOk = false) :
+    dialCount (handleConn e) = 0 ∧ (∀ c, Action.abort c ∉ handleConn e) ∧
+    (∀ u d up, Action.collect u d up ∉ handleConn e) ∧ (handleConn e).getLast? = some .closeClient := by
+  rw [handleConn_cases e r hr hroute]
+  simp only [hw, if_true, afterWait]
+  rcases hf with h | h | h | h
+  · simp [h, dialCount]
+  · cases hp : e.proceedOk <;> simp [h, hp, dialCount]
+  · cases hp : e.proceedOk <;> cases hs : e.setDeadlineOk <;> simp [h, hp, hs, dialCount]
+  · cases hp : e.proceedOk <;> cases hs : e.setDeadlineOk <;> by_cases hk : e.waitKind = .error <;>
+      simp [h, hp, hs, hk, dialCount]
+
+example : waits { sampleEnv with waitKind := .error } ⟨"a:1", [], "u"⟩ = true := by decide
+
+/-- End-of-stream that arrives TOGETHER with data in the wait read (one Read returning n > 0 and io.EOF): the n bytes are
+the DialStream payload, the copy then starts after them, so they are forwarded exactly once; and when the client-side loop
+sees the end of the stream the write shutdown is passed on (CloseWrite on the remote side) with exactly the client's bytes
+delivered. -/
+theorem wait_eof_with_data (e : Env) (r : Req) (hr : e.req = some r) (hroute : e.routeErr = none)
+    (hw : waits e r = true) (hp : e.proceedOk = true) (hs : e.setDeadlineOk = true) (hk : e.waitKind = .eof)
+    (hc : e.clearDeadlineOk = true) (hd : e.dialErr = none) :
+    handleConn e = .handshake :: .routed :: .proceed :: .setDeadline :: .waitRead e.bufSize :: .clearDeadline ::
+      fromDial e r true (e.clientStream.take (waitBytes e)) (waitBytes e) ∧
+    ((∀ l ∈ e.sched, l ≠ .fail .left) → Action.closeWrite .right ∈ handleConn e →
+      targetReceived (handleConn e) = e.clientStream) := by
+  have hk' : e.waitKind ≠ .error := by rw [hk]; decide
+  refine ⟨?_, ?_⟩
+  · rw [handleConn_cases e r hr hroute]
+    simp [hw, afterWait_ok e r hp hs hk' hc]
+  · intro hnf hcw
+    have := payload_once_delivered e r hr hroute hd hnf hcw
+    rwa [((waits_iff e r).1 hw).1, List.nil_append] at this
+
+example : Action.closeWrite .right ∈ handleConn { sampleEnv with waitKind := .eof, waitN := 3, sched := [.eof .left, .chunk .right 1, .eof .right] } := by decide
+
 /-! ### failure_reply -/
 
 /-- A router failure is answered with Abort(code of the router error); nothing is dialed, nothing is proceeded. -/
@@ -317,6 +359,8 @@ end SSV.C13
 #print axioms SSV.C13.payload_once
 #print axioms SSV.C13.payload_once_delivered_prefix
 #print axioms SSV.C13.payload_once_delivered
+#print axioms SSV.C13.wait_path_failure_drops
+#print axioms SSV.C13.wait_eof_with_data
 #print axioms SSV.C13.failure_reply_route
 #print axioms SSV.C13.failure_reply
 #print axioms SSV.C13.never_abort_and_proceed
